@@ -4,6 +4,7 @@ imported once, under a bound name no other import uses, and a configurable is pr
 `<selector of its module>.<attribute path>`.
 -/
 import Gin.DynReg
+import Gin.Serialize
 
 namespace Gin.DynReg
 open Gin Gin.AList
@@ -42,6 +43,18 @@ def IM.addAll (im : IM) : List Import → Option IM
   | st :: rest => match im.add st with
     | none => none
     | some im' => im'.addAll rest
+
+/-- the constructor's sort key `(module, not is_from, alias or '')`: `from` imports of a module first, then
+    the alias (none before any) — a total order on statements, so the result cannot depend on the
+    iteration order of the recorded set -/
+def Import.key (i : Import) : List String × List String :=
+  (i.module, (if i.isFrom then "0" else "1") :: (match i.alias with | none => [] | some a => [a]))
+
+def importLe (a b : Import) : Bool :=
+  if a.key.1 == b.key.1 then lexLe a.key.2 b.key.2 else lexLe a.key.1 b.key.1
+
+/-- `ImportManager(imports)`: the recorded statements are added in sorted order -/
+def IM.ofRecorded (l : List Import) : Option IM := ({} : IM).addAll (sortBy importLe l)
 
 /-- `ImportManager.minimal_selector` for a configurable that came from `module` at attribute path `name` -/
 def IM.selectorOf (im : IM) (module name : List String) : Option (List String) :=
